@@ -2141,4 +2141,131 @@ theorem ReachableR.budget {g : Graph} (hwf : graphWF g = true) {ncls : Nat}
   | init => exact Budget.init g ncls store
   | step w out fuel hr hw hf ih => exact ih.step hwf (hr.basic hwf) w out fuel hw hf
 
+/-! ## result lists only grow -/
+
+/-- every result list of `s` is an initial segment of the corresponding list of `s'` -/
+def Ext (s s' : State) : Prop := ∀ m, (s.nd m).results <+: (s'.nd m).results
+
+theorem Ext.refl (s : State) : Ext s s := fun _ => List.prefix_refl _
+theorem Ext.trans {s s1 s2 : State} (a : Ext s s1) (b : Ext s1 s2) : Ext s s2 := fun m => (a m).trans (b m)
+
+theorem Silent.ext {g : Graph} {w : Nat} {s s' : State} (a : Silent g w s s') : Ext s s' :=
+  fun m => by rw [a.results]; exact List.prefix_refl _
+
+theorem startTest_ext (g : Graph) (s : State) (n w : Nat) (ph : Phase) (dir : Dir) : Ext s (startTest g s n w ph dir).1 := by
+  intro m
+  rcases startTest_results g s n w ph dir m with h | ⟨_, _, _, h⟩
+  · rw [h]; exact List.prefix_refl _
+  · rw [h]; exact List.prefix_append _ _
+
+theorem StartFrom.ext {g : Graph} {w : Nat} {s1 s' : State} (h : StartFrom g w s1 s') : Ext s1 s' := by
+  cases h with
+  | plain n dir s0 evs hn hroot hdec h => rw [h]; exact startTest_ext g s1 n w .plain dir
+  | pre n dir hn hroot h =>
+    rw [h]
+    exact Ext.trans (s1 := s1.setWd w (fun d => { d with preResults := (s1.nd n).results, preName := preNameOf g n w }))
+      (fun _ => List.prefix_refl _) (startTest_ext g _ n w .pre dir)
+
+theorem appendPre_ext (s : State) (n w : Nat) : Ext s (appendPre s n w) := by
+  intro m
+  unfold appendPre
+  rcases nd_setNd_cases s n (fun d => { d with results := d.results ++ (s.wd w).preResults.drop d.results.length }) m with h | ⟨_, _, h⟩
+  · rw [h]; exact List.prefix_refl _
+  · rw [h]; exact List.prefix_append _ _
+
+theorem ContEff.ext {g : Graph} {w n : Nat} {ph : Phase} {dir : Dir} {sc : State} {ok : Bool} {s' : State}
+    (h : ContEff g w n ph dir sc ok s') : Ext sc s' := by
+  rcases h with ⟨_, _, h⟩ | ⟨_, h⟩
+  · rw [h]; exact startTest_ext g sc n w .main dir
+  · have hd : Ext sc (if ph = .pre then appendPre sc n w else sc) := by
+      split
+      · exact appendPre_ext sc n w
+      · exact Ext.refl sc
+    rcases h with ⟨a, _⟩ | ⟨s1, a, hs⟩
+    · exact hd.trans a.ext
+    · exact hd.trans (a.ext.trans hs.ext)
+
+/-- the only results a step of worker `w` may take away from node `m`: the placeholder of the test proper
+that `w` is awaiting at `m` -/
+def removable (s : State) (w m : Nat) (r : Result) : Bool :=
+  match (s.wd w).pc with
+  | .test _ .pre _ _ _ _ => false
+  | .test n _ _ _ tag _ => n == m && isPh tag r
+  | _ => false
+
+/-- Along a step every result list keeps its elements in order, except that the placeholder of the awaited
+test proper may disappear from the node it was run on; whatever is new is appended behind. -/
+theorem resume_results_sublist (g : Graph) (hwf : graphWF g = true) (s : State) (w : Nat) (out : Outcome) (fuel : Nat)
+    (hf : 0 < fuel) (hw : w < s.workers.length) (hpath : ∀ x ∈ (s.wd w).path, x < g.nodes.length) (m : Nat) :
+    ((s.nd m).results.filter (fun r => !removable s w m r)).Sublist ((resume g s w out fuel).1.nd m).results := by
+  rcases resume_eff g hwf s w out fuel hf hw hpath with ⟨_, h⟩ | ⟨n, ph, dir, uid, tag, wait, hpc, sa, hrep, h⟩
+  · have he : Ext s (resume g s w out fuel).1 := by
+      rcases h with ⟨a, _⟩ | ⟨s1, a, hs⟩
+      · exact a.ext
+      · exact a.ext.trans hs.ext
+    exact List.filter_sublist.trans (he m).sublist
+  · have hsb : SameBook s sa := by
+      rcases hrep with h | ⟨_, _, _, h, _⟩
+      · rw [h]; exact ⟨rfl, rfl, rfl⟩
+      · exact h
+    rcases h with ⟨e, _, sb, res, ok, hsab, _, hres, hc⟩ | ⟨_, h | hc⟩
+    · refine List.Sublist.trans ?_ (hc.ext m).sublist
+      have hnd : sb.nd m = s.nd m := by rw [hsab.nd, hsb.nd]
+      by_cases hp : ph = .pre
+      · simp only [hp, if_true]
+        show List.Sublist _ (sb.nd m).results
+        rw [hnd]; exact List.filter_sublist
+      · simp only [hp, if_false]
+        rcases settleNd_results sb n res tag m with h | ⟨hmn, h⟩
+        · rw [h, hnd]; exact List.filter_sublist
+        · rw [h, hnd, List.filter_append]
+          refine List.Sublist.trans ?_ (List.sublist_append_left _ _)
+          have : (fun r => !removable s w m r) = (fun r => !isPh tag r) := by
+            funext r
+            unfold removable
+            rw [hpc, hmn]
+            cases ph
+            · simp
+            · exact absurd rfl hp
+            · simp
+          rw [this]
+          exact List.Sublist.refl _
+    · rw [h]
+      show List.Sublist _ (sa.nd m).results
+      rw [hsb.nd]; exact List.filter_sublist
+    · refine List.Sublist.trans ?_ (hc.ext m).sublist
+      rw [hsb.nd]; exact List.filter_sublist
+
+/-- … in particular: unless `w` awaits a test proper at `m`, the list of `m` is only extended -/
+theorem resume_results_prefix (g : Graph) (hwf : graphWF g = true) (s : State) (w : Nat) (out : Outcome) (fuel : Nat)
+    (hf : 0 < fuel) (hw : w < s.workers.length) (hpath : ∀ x ∈ (s.wd w).path, x < g.nodes.length) (m : Nat)
+    (hm : ∀ n ph dir uid tag wait, (s.wd w).pc = .test n ph dir uid tag wait → ph = .pre ∨ n ≠ m) :
+    (s.nd m).results <+: ((resume g s w out fuel).1.nd m).results := by
+  rcases resume_eff g hwf s w out fuel hf hw hpath with ⟨_, h⟩ | ⟨n, ph, dir, uid, tag, wait, hpc, sa, hrep, h⟩
+  · rcases h with ⟨a, _⟩ | ⟨s1, a, hs⟩
+    · exact a.ext m
+    · exact (a.ext.trans hs.ext) m
+  · have hsb : SameBook s sa := by
+      rcases hrep with h | ⟨_, _, _, h, _⟩
+      · rw [h]; exact ⟨rfl, rfl, rfl⟩
+      · exact h
+    rcases h with ⟨e, _, sb, res, ok, hsab, _, hres, hc⟩ | ⟨_, h | hc⟩
+    · refine List.IsPrefix.trans ?_ (hc.ext m)
+      have hnd : sb.nd m = s.nd m := by rw [hsab.nd, hsb.nd]
+      by_cases hp : ph = .pre
+      · simp only [hp, if_true]
+        show _ <+: (sb.nd m).results
+        rw [hnd]; exact List.prefix_refl _
+      · simp only [hp, if_false]
+        rcases settleNd_results sb n res tag m with h | ⟨hmn, h⟩
+        · rw [h, hnd]; exact List.prefix_refl _
+        · rcases hm n ph dir uid tag wait hpc with h' | h'
+          · exact absurd h' hp
+          · exact absurd hmn.symm h'
+    · rw [h]
+      show _ <+: (sa.nd m).results
+      rw [hsb.nd]; exact List.prefix_refl _
+    · refine List.IsPrefix.trans ?_ (hc.ext m)
+      rw [hsb.nd]; exact List.prefix_refl _
+
 end I2N.Trav
